@@ -242,6 +242,10 @@ def run_case(kind, case):
 
 
 def seq_ops(job):
+    if job.get("name", "").startswith("seqreal"):
+        # secp256k1 itself: public keys of secret-key pairs that a too-coarse memo key cannot tell apart (vf/classes.py)
+        from vf.classes import twin_secret_keys
+        return [("privkey", {"key": k.to_bytes(32, "big").hex(), "twin": nm}) for nm, a, b in twin_secret_keys(S.n) for k in (a, b)]
     cv = job["curve"]
     C = smallcurve.curve(cv)
     P, Q = C.mul(3, C.G), C.mul(5, C.G)
@@ -295,6 +299,7 @@ def jobs(tier, seed):
     js.append({"name": "secp/keys", "part": "realkeys", "weight": 6})
     from vf.runner import seq_jobs
     js += seq_jobs(3, curve=list(smallcurve.TABLE[0]), weight=3)
+    js += seq_jobs(1, weight=3, name="seqreal")
     for i in range(3):
         js.append({"name": f"concurrent-mul/{i}", "part": "concur", "curve": list(smallcurve.TABLE[0]), "idx": i, "weight": 5})
     return js
